@@ -83,6 +83,36 @@ func genJPrim(r *gen.Rand) rb.JV {
 }
 
 func genJSONLike(r *gen.Rand, depth int) rb.JV {
+	if depth > 0 && r.Chance(1, 10) {
+		// the same sub-object referenced several times (a DAG, not a cycle):
+		// Export / MarshalJSON must emit it at every place
+		inner := genJSONLike(r, depth-1)
+		if !r.Chance(1, 4) {
+			// containers are what Export keeps a visited set for
+			e := []rb.JV{genJSONLike(r, depth-1), genJSONLike(r, depth-1)}
+			switch r.Intn(3) {
+			case 0:
+				inner = rb.JArr(e[:r.Intn(3)]...)
+			case 1:
+				inner = rb.JArr(e[0], sameShape(r, e[0], depth-1))
+			default:
+				inner = rb.JObj(rb.GenKeys(r, 2), e)
+			}
+		}
+		n := r.Range(2, 3)
+		e := make([]rb.JV, n)
+		for i := range e {
+			e[i] = inner
+		}
+		var out rb.JV
+		if r.Bool() {
+			out = rb.JArr(e...)
+		} else {
+			out = rb.JObj(rb.GenKeys(r, n), e)
+		}
+		out.S = "shared"
+		return out
+	}
 	if depth > 0 && r.Chance(1, 2) {
 		n := r.Range(0, 4)
 		e := make([]rb.JV, n)
